@@ -87,8 +87,25 @@ func normalizeFatal(log string) string {
 	if len(m) > 120 {
 		m = m[:120]
 	}
-	return strings.TrimSpace(m)
+	m = strings.TrimSpace(m)
+	// name the first frame of the system under test in the panicking goroutine, so that two different crashes with
+	// the same runtime message (nil pointer dereference, ...) have different signatures
+	if i := strings.Index(log, fatalRe.FindString(log)); i >= 0 {
+		rest := log[i:]
+		if j := strings.Index(rest, "\ngoroutine "); j >= 0 {
+			rest = rest[j+1:]
+			if k := strings.Index(rest, "\n\n"); k >= 0 {
+				rest = rest[:k]
+			}
+			if f := fatalFrameRe.FindStringSubmatch(rest); f != nil {
+				m += " in " + f[1]
+			}
+		}
+	}
+	return m
 }
+
+var fatalFrameRe = regexp.MustCompile(`(?m)^github\.com/oxia-db/oxia/([^\s(]+(?:\(\*[A-Za-z0-9_]+\))?[^\s(]*)\(`)
 
 func (rs *runState) runJob(j job) {
 	from := j.from
